@@ -93,3 +93,155 @@ impl Drop for ConnEnd {
         record("c_end", self.conn, self.completed as u64);
     }
 }
+
+// ---- scheduling control ---------------------------------------------------------------------
+//
+// A *gate* is a one-shot failpoint: "park the first thread that reaches the trace point `point`
+// (on worker `worker`, or on any thread if `None`) until the gate is released". The server code
+// calls [`gate`] at the points where another thread's action can overtake its own next step; the
+// harness arms gates, waits until a thread is parked, makes the other thread act (e.g. calls
+// `ServerHandle::shutdown` and waits for `acc_send`), then releases. With no gate armed, [`gate`]
+// is one relaxed atomic load.
+
+/// The thread id passed to [`gate`] by the acceptor (workers pass their own id).
+pub const ACCEPTOR: u64 = u64::MAX;
+
+/// The longest a thread stays parked if nobody releases it.
+const PARK_CAP: std::time::Duration = std::time::Duration::from_secs(5);
+
+struct Gate {
+    id: u64,
+    point: String,
+    worker: Option<u64>,
+    /// The thread (worker id / [`ACCEPTOR`]) parked at this gate, once there is one.
+    parked: Option<u64>,
+    released: bool,
+    /// The parked thread has gone on.
+    done: bool,
+}
+
+struct Gates {
+    gates: Vec<Gate>,
+    next_id: u64,
+}
+
+static ARMED: std::sync::atomic::AtomicUsize = std::sync::atomic::AtomicUsize::new(0);
+
+fn gates() -> &'static (Mutex<Gates>, std::sync::Condvar) {
+    static GATES: OnceLock<(Mutex<Gates>, std::sync::Condvar)> = OnceLock::new();
+    GATES.get_or_init(|| {
+        (
+            Mutex::new(Gates {
+                gates: Vec::new(),
+                next_id: 0,
+            }),
+            std::sync::Condvar::new(),
+        )
+    })
+}
+
+/// Arm a one-shot gate at `point` for thread `worker` (`None`: whichever thread gets there first).
+/// Returns the gate's id.
+pub fn arm(point: &str, worker: Option<u64>) -> u64 {
+    let (m, _) = gates();
+    let mut g = m.lock().unwrap_or_else(|p| p.into_inner());
+    let id = g.next_id;
+    g.next_id += 1;
+    g.gates.push(Gate {
+        id,
+        point: point.to_owned(),
+        worker,
+        parked: None,
+        released: false,
+        done: false,
+    });
+    ARMED.fetch_add(1, std::sync::atomic::Ordering::SeqCst);
+    id
+}
+
+/// The thread parked at gate `id`, if a thread has reached it (also after its release).
+pub fn parked(id: u64) -> Option<u64> {
+    let (m, _) = gates();
+    let g = m.lock().unwrap_or_else(|p| p.into_inner());
+    g.gates.iter().find(|x| x.id == id).and_then(|x| x.parked)
+}
+
+/// The threads that are parked at a gate right now.
+pub fn parked_now() -> Vec<u64> {
+    let (m, _) = gates();
+    let g = m.lock().unwrap_or_else(|p| p.into_inner());
+    g.gates
+        .iter()
+        .filter(|x| !x.done)
+        .filter_map(|x| x.parked)
+        .collect()
+}
+
+/// Release gate `id`: the thread parked there (now or later) goes on.
+pub fn release(id: u64) {
+    let (m, cv) = gates();
+    let mut g = m.lock().unwrap_or_else(|p| p.into_inner());
+    if let Some(x) = g.gates.iter_mut().find(|x| x.id == id) {
+        x.released = true;
+    }
+    cv.notify_all();
+}
+
+/// Release every gate and forget them all.
+pub fn disarm_all() {
+    let (m, cv) = gates();
+    let mut g = m.lock().unwrap_or_else(|p| p.into_inner());
+    g.gates.iter_mut().for_each(|x| x.released = true);
+    g.gates.retain(|x| x.parked.is_some() && !x.done);
+    ARMED.store(0, std::sync::atomic::Ordering::SeqCst);
+    cv.notify_all();
+}
+
+/// A trace point at which the calling thread (`who`: worker id or [`ACCEPTOR`]) can be parked.
+/// Records `park` (a = who, b = gate id) when it parks and `unpark` when it goes on.
+/// Must not be called with the recorder lock held.
+pub fn gate(point: &'static str, who: u64) {
+    if ARMED.load(std::sync::atomic::Ordering::Relaxed) == 0 {
+        return;
+    }
+    let (m, cv) = gates();
+    let mut g = m.lock().unwrap_or_else(|p| p.into_inner());
+    let Some(id) = g
+        .gates
+        .iter_mut()
+        .find(|x| {
+            x.parked.is_none() && x.point == point && x.worker.map(|w| w == who).unwrap_or(true)
+        })
+        .map(|x| {
+            x.parked = Some(who);
+            x.id
+        })
+    else {
+        return;
+    };
+    ARMED.fetch_sub(1, std::sync::atomic::Ordering::SeqCst);
+    record("park", who, id);
+    let deadline = Instant::now() + PARK_CAP;
+    loop {
+        let released = g
+            .gates
+            .iter()
+            .find(|x| x.id == id)
+            .map(|x| x.released)
+            .unwrap_or(true);
+        let now = Instant::now();
+        if released || now >= deadline {
+            break;
+        }
+        g = cv
+            .wait_timeout(g, deadline - now)
+            .unwrap_or_else(|p| p.into_inner())
+            .0;
+    }
+    if let Some(x) = g.gates.iter_mut().find(|x| x.id == id) {
+        x.released = true;
+        x.done = true;
+    }
+    drop(g);
+    record("unpark", who, id);
+}
